@@ -430,7 +430,13 @@ int BaseKillPlugin::getAndTryToKillPids(const CgroupContext& target) {
   errno = 0;
   while ((read = ::getline(&line, &len, fp)) != -1) {
     OCHECK(line != nullptr);
-    pids.push_back(std::stoi(line));
+    const int pid = std::stoi(line);
+    // cgroup.procs reports 0 for tasks living in a pid namespace we cannot see.
+    // kill(0, ...) / kill(-n, ...) would signal our own process group instead.
+    if (pid <= 0) {
+      continue;
+    }
+    pids.push_back(pid);
     if (pids.size() == streamSize) {
       nrKilled += tryToKillPids(pids);
       pids.clear();
